@@ -305,9 +305,17 @@ class ManagedLock(object):
             held.append(self.name)
             return True
         s.yield_point("acquire")
+        tries = 0
         while self.owner is not None:
             if not blocking:
                 return False
+            if timeout is not None and timeout >= 0:
+                # a bounded wait: let the others run once, look again, then report failure (virtual time is not modelled for locks)
+                tries += 1
+                if tries > 1:
+                    return False
+                s.yield_point("acquire-wait")
+                continue
             s.block_on(self)
         self.owner = aid
         held = ManagedLock.held_by.setdefault(aid, [])
